@@ -21,6 +21,13 @@ CBMC_BASE = ['--unwinding-assertions', '--undefined-shift-check', '--signed-over
              '--drop-unused-functions', '--no-malloc-may-fail', '--max-field-sensitivity-array-size', '512', '--no-standard-checks',
              '--bounds-check', '--pointer-check', '--div-by-zero-check']
 
+# loops of the C++ runtime whose trip count is a compile-time constant (string-literal copies): bound = longest literal + 2
+DEFAULT_LOOP_BOUNDS = {r'^_ZNSt6ranges14__copy_or_move': 64}
+def cid(n):
+    if re.fullmatch(r'[A-Za-z_][A-Za-z0-9_]*', n): return n
+    h = hashlib.md5(n.encode()).hexdigest()[:8]
+    return re.sub(r'[^A-Za-z0-9_]', '_', n)[:60] + '_' + h
+
 def log(*a):
     sys.stderr.write(' '.join(str(x) for x in a) + '\n'); sys.stderr.flush()
 
@@ -103,6 +110,9 @@ class Group:
         r = run(cmd)
         if r.returncode != 0: raise BuildError('ll2c failed:\n' + r.stderr[-4000:] + r.stdout[-2000:])
         s.ll2c_msg = r.stderr.strip()
+        s.vpl_funcs = set()
+        for p_ in mp:
+            s.vpl_funcs |= set(re.findall(r'^static [\w \*]*?\b(vpl_\w+)\s*\(', open(p_).read(), re.M))
         s.report = json.load(open(os.path.join(s.dir, 'report.json')))
         s.build_s = time.time() - t0
         # one main per instance
@@ -111,6 +121,15 @@ class Group:
             mc += ['#include "%s"' % p for p in mp]
             mc.append('int main(int argc, char **argv) {\n#ifndef __CPROVER__\n vp_native_open(argc > 1 ? argv[1] : 0);\n#endif\n vp_base_init(); __ll2c_global_ctors(); F_%s();\n#ifdef __CPROVER__\n __CPROVER_assert(0, "WITNESS reachability of harness end");\n#else\n vp_native_done();\n#endif\n return 0; }' % inst['entry'])
             open(os.path.join(s.dir, 'main_%s.c' % inst['name']), 'w').write('\n'.join(mc) + '\n')
+
+    def model_loops(s, inst):
+        """ids of all loops in model code (functions not generated by ll2c): they get the model loop bound"""
+        if not hasattr(s, '_loops'):
+            cmd = ['cbmc', 'main_%s.c' % inst['name'], '--show-loops']
+            for k, v in inst.get('cdefs', {}).items(): cmd.append('-D%s=%s' % (k, v))
+            r = run(cmd, cwd=s.dir)
+            s._loops = [l for l in re.findall(r'^Loop (\S+):', r.stdout, re.M) if not l.startswith('F_') and not l.startswith('__CPROVER')]
+        return s._loops
 
 class BuildError(Exception): pass
 
@@ -124,7 +143,15 @@ def limit_mem(gb):
 def cbmc_cmd(grp, inst, extra=()):
     cmd = ['cbmc', 'main_%s.c' % inst['name']] + CBMC_BASE + ['--object-bits', str(inst.get('object_bits', 10))]
     cmd += ['--unwind', str(inst.get('unwind', 4))]
-    if inst.get('unwindset'): cmd += ['--unwindset', ','.join(inst['unwindset'])]
+    uws = list(inst.get('unwindset', []))
+    mlb = inst.get('model_loop_bound', 42)
+    for lid in grp.model_loops(inst): uws.append('%s:%d' % (lid, mlb))
+    lb = dict(DEFAULT_LOOP_BOUNDS); lb.update(grp.g.get('loop_bounds', {})); lb.update(inst.get('loop_bounds', {}))
+    for pat, bound in lb.items():
+        for fn in grp.report['translated']:
+            if re.search(pat, fn):
+                for k in range(3): uws.append('F_%s.%d:%d' % (cid(fn), k, bound))
+    if uws: cmd += ['--unwindset', ','.join(uws)]
     for k, v in inst.get('cdefs', {}).items(): cmd.append('-D%s=%s' % (k, v))
     if inst.get('pointer_overflow', False): cmd.append('--pointer-overflow-check')
     solver = inst.get('solver', 'minisat')
